@@ -60,11 +60,11 @@ void harness (void)
   SETUP_SETTING;   /* XV_UNWIND 512 */
   const struct hashfn *h = get_hashfn ((const char *) set);
   int want = spec_method_of_prefix (set, set_len);
-  XV_ASSERT ("C05,C18,C19", (h == 0) == (want < 0), "NULL exactly when no enabled method's prefix matches");
+  XV_ASSERT ("C05,C10,C18,C19", (h == 0) == (want < 0), "NULL exactly when no enabled method's prefix matches");
   if (h)
     {
       XV_ASSERT ("C04", h >= hash_algorithms && h < hash_algorithms + XV_NTABLE, "result is an entry of the table");
-      XV_ASSERT ("C05,C07,C18,C19", xv_entry_method (h) == want, "the entry dispatches to the method the prefix selects");
+      XV_ASSERT ("C05,C07,C10,C18,C19", xv_entry_method (h) == want, "the entry dispatches to the method the prefix selects");
       XV_CANARY ("found path");
     }
   else
@@ -154,6 +154,15 @@ void harness (void)
   XV_ASSERT ("C18", (h->is_strong != 0) == spec_method_is_strong (m), "strong flag matches crypt(5)'s classification");
   XV_ASSERT ("C12", h->nrbytes == spec_nrbytes[m] && h->nrbytes > 0, "entropy drawn for the method");
   XV_ASSERT ("C04", hash_algorithms[XV_NTABLE].prefix == 0, "table is terminated");
+  /* lemma over the two specifications (no library code): every character the
+     DES-family generators can emit (the radix-64 alphabet) is a DES salt
+     character of the prefix specification, so their settings select DES */
+  {
+    static const unsigned char b64[65] = "./0123456789ABCDEFGHIJKLMNOPQRSTUVWXYZabcdefghijklmnopqrstuvwxyz";
+    XV_IN (unsigned, v, nondet_uint);
+    XV_ASSUME (v < 64);
+    XV_ASSERT ("C10", spec_des_salt_char (b64[v]), "every radix-64 character is a DES salt character in the prefix specification");
+  }
   XV_CANARY ("table entry");
 }
 #endif
